@@ -18,7 +18,13 @@ Inductive c03_fact :=
        approved yet; votes the module has on record; is the caller listed at all *)
 | FRotate (owner new : Z) (proof_ok : bool)
 | FRotateRR (owner new : Z) (holder_amount supply : Z)
-| FPool (share_denom native_denom : string) (keep : Z).
+| FPool (share_denom native_denom : string) (keep : Z)
+| FEscrow (kind : string) (module : Z) (d : string) (pending_after balance_after pending_before balance_before : Z)
+    (* what the module's escrow account holds in [d] and the sum of the pending entries of this
+       claim kind owned by accounts that did not sign, after and before the step *)
+| FRightful (kind : string) (accepted : bool).
+    (* the signer settled a pending entry of his own (per the harness' ghost record of accepted
+       messages): was the transaction accepted *)
     (* a staking pool's share token: staking x of the native denom mints x * keep / 10^18 shares *)
 
 (* inputs of the handler model for single-message transactions of a modelled kind *)
@@ -251,11 +257,20 @@ Definition rotation_clauses (c : c03_case) : list string :=
     | FRotateRR old nw _ _ => check old nw
     | _ => [] end) (k_facts c).
 
+(* every non-signer's escrowed entry stays backed, and a rightful settlement is not refused *)
+Definition escrow_clauses (c : c03_case) : list string :=
+  flat_map (fun f => match f with
+    | FEscrow k _ _ pa ba pb bb =>
+        (* the step that opens or widens a shortfall is the one reported *)
+        if pa - ba <=? Z.max 0 (pb - bb) then [] else [String.append "escrow-unbacked-" k]
+    | FRightful k ok => if ok then [] else [String.append "rightful-settlement-refused-" k]
+    | _ => [] end) (k_facts c).
+
 Fixpoint dedup (l : list string) : list string :=
   match l with [] => [] | x :: r => if str_in x r then dedup r else x :: dedup r end.
 
 Definition case_clauses (c : c03_case) : list string :=
-  dedup (
+  dedup (escrow_clauses c ++
   if k_phase c =? 0 then
     flat_map (fun e => let '(a, d, b, f) := e in coin_clause c a d b f) (k_bal c) ++
     flat_map (claim_clause c "") (k_claims c) ++ rotation_clauses c
